@@ -70,3 +70,19 @@ func checkC04(c *Ctx) {
 	c.floor("T-TABLE(_watcher.run)", 9, "8 iteration paths, closure, initial state")
 	c.floor("T-TABLE(_watchSession.run)", 9, "8 distinct cases + prelude")
 }
+
+func init() {
+	props = append(props, propSpec{ID: "C13", Level: "other", Run: checkC13,
+		Explanation: "Phase tables of _lister.run (tick → list → deliver → tick; exactly one of tickch/runch/resultch armed in every phase, read off the loop-header phis) and _ticker.run (timer armed or tick pending after every handler; reset re-arms with a fresh period, drains without blocking and disables a pending tick), the list worker/canceller goroutines, and the flow of the refresh period from the builder to the timer. Any blocking operation inside a ticker handler is reported.",
+		Assumptions: []string{"numeric spacing ([0.9p,1.1p]) and wall-clock behaviour are not decided"}})
+}
+
+func checkC13(c *Ctx) {
+	checkListerTable(c)
+	checkListGoroutines(c)
+	checkTickerTable(c)
+	checkPeriodFlow(c)
+	c.floor("T-TABLE(_lister.run)", 5, "4 arms + initial phase")
+	c.floor("T-TABLE(_ticker.run)", 6, "5 cases + initial state")
+	c.floor("T-FLOW(period)", 6, "period stores and uses")
+}
